@@ -542,6 +542,8 @@ def observe(b, encode=True, max_values=None):
             except Exception as e:  # noqa
                 enc[name] = core.err_tag(e) + ' ' + type(e).__name__
 
+        # the reference: the plain re-encode of the rendered object (no serialisation in between)
+        encode_one('flat_object', flat)
         encode_one('flat_json', json.loads(json.dumps(flat, **U.JSON_DUMPS_KWARGS)))
         if 'nested_json' in texts and stages['nested_json'].get('convert') == 'ok':
             encode_one('nested_json', U.nested_json_to_flat_json(json.loads(json.dumps(texts['nested_json'], **U.JSON_DUMPS_KWARGS))))
